@@ -182,10 +182,10 @@ class Gen:
     # ---------------------------------------------------------------- expressions
     def leaf(self, ty):
         vs = self.vars_of(lambda t, m: t == ty)
-        if vs and self.chance(0.75):
+        if vs and self.chance(0.85):
             n, t, m = self.pick(vs)
             return Var(n, t)
-        if isinstance(ty, (TBool, TInt)) and self.chance(0.6):
+        if isinstance(ty, (TBool, TInt)) and self.chance(0.8):
             sv = self.vars_of(lambda t, m: isinstance(t, (TBool, TInt)))
             if sv:
                 n, t, m = self.pick(sv)
@@ -413,6 +413,9 @@ class Gen:
         if isinstance(ty, TBool):
             return PLit(BOOL, self.rng.randint(0, 1))
         if isinstance(ty, TInt):
+            if self.chance(0.15):
+                # range from zero, often without suffix (typed by the scrutinee)
+                return PRange(ty, 0, self.rng.randint(1, ty.max), True, suffix=self.chance(0.4))
             if self.chance(0.5):
                 return PLit(ty, self.int_lit(ty).v, suffix=self.chance(0.7))
             a, b = sorted([self.int_lit(ty).v, self.int_lit(ty).v])
@@ -671,6 +674,8 @@ class Gen:
         for _ in range(np):
             t = self.rand_type(2)
             params.append((self.fresh("x"), t, self.chance(0.4)))
+        if not any(isinstance(t, (TBool, TInt)) for _, t, _ in params) and self.chance(0.8):
+            params.append((self.fresh("x"), self.rand_int_type(), self.chance(0.4)))
         if np == 1 and is_arr(params[0][1]) and self.chance(0.5):
             # avoid the "single array = one party per element" form half of the time
             params.append((self.fresh("x"), self.rand_scalar(), False))
@@ -686,7 +691,7 @@ class Gen:
             if st is not None:
                 stmts.append(st)
             self.budget = max(self.budget, 20)
-        if c.ret_all_vars:
+        if c.ret_all_vars or self.chance(0.5):
             vs = self.vars_of(lambda t, m: True)
             vs = [v for v in vs if size_of(v[1]) > 0][:6]
             if len(vs) >= 2:
